@@ -84,7 +84,7 @@ def paths(stmts, env=None, pure_calls=()):
         walk(list(st.body) + todo, env, conds + [(test, True)])
         walk(list(st.orelse) + todo, env, conds + [(test, False)])
         return
-      if isinstance(st, (ast.Continue, ast.Break, ast.Return)):
+      if isinstance(st, (ast.Continue, ast.Break, ast.Return, ast.Raise)):
         out.append((conds, env, type(st).__name__.lower()))
         if len(out) > MAX_PATHS:
           raise PathError('too many paths')
